@@ -124,6 +124,28 @@ pub fn check_reflect(r: &Reflect) -> (String, Vec<(String, String)>) {
 }
 
 #[derive(Clone, Debug)]
+pub struct RangeFraming {
+    pub entry: Entry,
+    pub method: String,
+    pub target: String,
+    pub value: String,
+}
+impl RangeFraming {
+    pub fn to_json(&self) -> Value {
+        json!({"kind": "range-framing", "entry": self.entry.name(), "method": self.method, "target": self.target, "value": self.value})
+    }
+}
+pub fn check_range_framing(r: &RangeFraming) -> (String, Vec<(String, String)>) {
+    let pre = format!("C05:range-framing:{}", r.entry.name());
+    let req = drive::request_bytes(&r.method, &r.target, "HTTP/1.1", &[("Host", "localhost"), ("Range", r.value.as_str())], b"");
+    let out = drive::simple(r.entry, &req);
+    if let Some(p) = &out.panic {
+        return ("panic".into(), vec![(format!("{}:panic:{}:{}", pre, c04::call_site(&p.location), panic_class(&p.message)), p.message.clone())]);
+    }
+    judge_wellformed(&pre, &req, &out.raw, false, None)
+}
+
+#[derive(Clone, Debug)]
 pub struct Transport {
     pub seed: usize,
     pub plan: String, // "first:<c>" | "uniform:<k>" | "interrupted+first:<c>" | "interrupted+uniform:<k>"
@@ -239,6 +261,29 @@ pub fn run(ctx: &mut Ctx) {
             }
         }
     }
+    // (d) every boundary value of the Range header on files of the tree, every method: the
+    //     framing of partial-content answers (Content-Length vs bytes sent, no body on HEAD/OPTIONS)
+    ctx.bound("range_framing", json!({"files": ["file.txt (10 bytes)", "big.bin (20000 bytes)", "empty/ (directory)", "dir/index.html"], "methods": ["GET", "HEAD", "OPTIONS"], "values": "C03's single-range grid over {0,1,2,L-2,L-1,L,L+1,2^63,u64::MAX,u64::MAX+1,'','a','-1',' 1 ','+1','01'} and pairs of specs"}));
+    for entry in [Entry::Process, Entry::Legacy] {
+        for (target, l) in [("/file.txt", 10usize), ("/big.bin", 20000), ("/dir/index.html", 22), ("/empty/", 0)] {
+            for method in ["GET", "HEAD", "OPTIONS"] {
+                crate::props::c03::for_each_spelled_value(l, &mut |value| {
+                    let r = RangeFraming { entry, method: method.to_string(), target: target.to_string(), value };
+                    let key = format!("range-framing\0{}", r.to_json());
+                    if !ctx.begin(key.as_bytes()) {
+                        return;
+                    }
+                    ctx.add("cases_range_framing", 1);
+                    ctx.nontrivial();
+                    let (class, fails) = check_range_framing(&r);
+                    ctx.outcome(&format!("range-framing:{}", class));
+                    for (sig, detail) in fails {
+                        ctx.fail(&sig, || r.to_json(), detail);
+                    }
+                });
+            }
+        }
+    }
     // (c) transport
     let seeds = corpus::seeds();
     let hostile = corpus::hostile();
@@ -287,6 +332,7 @@ pub fn replay(v: &Value) -> Vec<Failure> {
             let r = Reflect { entry: Entry::from_name(v["entry"].as_str().unwrap_or("")), method: v["method"].as_str().unwrap_or("GET").to_string(), header: v["header"].as_str().unwrap_or("Origin").to_string(), value: v["value"].as_str().unwrap_or("").to_string() };
             check_reflect(&r).1
         }
+        Some("range-framing") => check_range_framing(&RangeFraming { entry: Entry::from_name(v["entry"].as_str().unwrap_or("")), method: v["method"].as_str().unwrap_or("GET").to_string(), target: v["target"].as_str().unwrap_or("/").to_string(), value: v["value"].as_str().unwrap_or("").to_string() }).1,
         Some("transport") => check_transport(&Transport { seed: v["seed"].as_u64().unwrap_or(0) as usize, plan: v["plan"].as_str().unwrap_or("first:1").to_string() }).1,
         _ => {
             let case = corpus::case_from_json(&v["case"]);
